@@ -302,6 +302,18 @@ void UncompressedFile::setDefaultLogContainerSize(uint32_t defaultLogContainerSi
     m_defaultLogContainerSize = defaultLogContainerSize;
 }
 
+#ifdef VECTOR_BLF_VERIF
+void UncompressedFile::verifHeld(size_t & containers, size_t & bytes) const {
+    /* mutex lock */
+    std::lock_guard<std::mutex> lock(m_mutex);
+
+    containers = m_data.size();
+    bytes = 0;
+    for (const std::shared_ptr<LogContainer> & logContainer : m_data)
+        bytes += logContainer->uncompressedFile.size();
+}
+#endif
+
 std::shared_ptr<LogContainer> UncompressedFile::logContainerContaining(const std::streampos pos) const {
     /* find logContainer that contains file position */
     std::list<std::shared_ptr<LogContainer>>::const_iterator result = std::find_if(m_data.cbegin(), m_data.cend(), [&pos](std::shared_ptr<LogContainer> logContainer) {
